@@ -587,6 +587,13 @@ def run(c):
         return {'f': None}
     lay = c.get('lay', {})
     p0 = parser(False)
+    if lay.get('twinfirst'):
+        # the same call or operation FIRST on operands equal in Python's eyes but of another type (3.0 before 3, TRUE before 1)
+        tw = twin_args(c['args'])
+        if tw is not None:
+            for i, v in enumerate(tw):
+                p0.set_variable(VAR_NAMES[i], dec(v))
+            _parse(p0, base_formula(c))
     _bind(p0, c)
     base = canon_rec(_parse(p0, base_formula(c)))
     p = parser(bool(lay.get('debug')))
@@ -761,10 +768,26 @@ def sem_trap(c, im):
     return None
 
 
+def sem_int_arith(c, im):
+    """+ - * on two Python ints is the exact int (C06: numbers as themselves, the exact arithmetic on those values)"""
+    tpl = c.get('tpl')
+    if tpl not in ('{0}+{1}', '{0}-{1}', '{0}*{1}'):
+        return None
+    a, b = c['args']
+    if not (isinstance(a, int) and isinstance(b, int)) or isinstance(a, bool) or isinstance(b, bool):
+        return None
+    exact = a + b if tpl[3] == '+' else a - b if tpl[3] == '-' else a * b
+    want = [['int', str(exact)], None]
+    if im['base'] != want:
+        return ('%s with the integers %s gives %s; the exact integer result is %s'
+                % (base_formula(c), json_short(c['args']), _show(im['base']), _show(want)))
+    return None
+
+
 def oracle(c, im):
     if im.get('f') is None:
         return None
-    m = sem_trap(c, im)
+    m = sem_trap(c, im) or sem_int_arith(c, im)
     if m:
         return m
     what = c.get('fn') or c.get('tpl')
@@ -819,6 +842,8 @@ def _layout(rng, is_fn):
         lay['twin'] = True
     if rng.random() < 0.07:
         lay['decoy'] = True
+    if rng.random() < 0.1:
+        lay['twinfirst'] = True
     return lay
 
 
@@ -880,6 +905,33 @@ def route_cases(rng, ctx, fam, scale=None):
                     continue
             out.append(c)
             made += 1
+        if kind == 'fn':
+            # systematic: an omitted argument in the first, a middle and the last slot under each of the three separators
+            # (the slot rule is one grammar action per separator), on this function's own signature
+            for sep in SEPS:
+                args = None
+                for _ in range(8):
+                    args = draw_args(rng, sig)
+                    if len(args) >= 2:
+                        break
+                if not args or len(args) < 2:
+                    break
+                for i in sorted(set([0, len(args) // 2, len(args) - 1])):
+                    a2 = args[:i] + [None] + args[i + 1:]
+                    c = {'kind': 'route', 'fn': name, 'args': a2, 'routes': ['var'] * i + ['slot'] + ['var'] * (len(a2) - i - 1)}
+                    if sep != ',':
+                        c['lay'] = {'sep': sep}
+                    if formula_of(c) is not None:
+                        out.append(c)
+            if name in TUPLE_OK:
+                # systematic: arrays of numbers and of texts handed over as tuples by the range listener and by a custom function
+                for arr in ([1, 2, 3], ['Nord', 'Sued', 'Ost'], [[1, 2], [3, 4]], [['a', 'b'], ['c', 'd']], [2.5], ['x', None, 'y']):
+                    for r in TUPLE_ROUTES:
+                        if name == 'TEXTJOIN':
+                            c = {'kind': 'route', 'fn': name, 'args': ['-', rng.choice([True, False]), arr], 'routes': ['var', 'var', r]}
+                        else:
+                            c = {'kind': 'route', 'fn': name, 'args': [arr, rng.choice([1, 'z'])], 'routes': [r, 'var']}
+                        out.append(c)
     return out
 
 
@@ -896,18 +948,20 @@ RULE_TEXT = (' Route layer (harness/routes.py, kind route; a random stream of it
              'not complete (the formula followed by `)`, `+nosuchname`, `+#N/A` or `+(`; 10 %); the same function once more in the same '
              'formula on operands equal in Python\'s eyes but of another type (CHOOSE(2,F(twins),F(operands)) with 1 / TRUE / 1.0, 0 / FALSE / '
              '0.0, whole float / int; 10 % of the calls); with ANOTHER parser binding the same variable and function names to other values '
-             'and evaluating the same formula in between (7 %); one argument omitted as an empty slot at a random position, whatever the '
+             'and evaluating the same formula in between (7 %); the plain call evaluated FIRST on such twin operands (10 %); one argument omitted as an empty slot at a random position, whatever the '
              'separator (10 % of the calls with two or more arguments); for the flattening functions (aggregates, CONCAT, CONCATENATE, TEXTJOIN) '
              'an array operand handed over as a tuple (of tuples) by the range listener or a custom function (15 % of their cases with an array); '
-             'custom functions are registered under upper-, lower- and mixed-case names. Oracle: the record equals, type for type and bit for bit, the record of the same call '
+             'custom functions are registered under upper-, lower- and mixed-case names. Systematically per function: an omitted argument in '
+             'the first, a middle and the last slot under each of the three separators; for the flattening functions six fixed arrays (numbers, '
+             'texts, two rows, a blank inside) as tuples through both tuple routes. Oracle: the record equals, type for type and bit for bit, the record of the same call '
              'with all operands in variables, commas, one line, no debug; the second evaluation equals the first; the answer after the other '
              'parser\'s bindings equals the one before; for IFERROR / IFNA / ISERROR / ISERR / ISNA on scalar operands the record of the variable '
-             'route is the one their definition gives. Model: '
+             'route is the one their definition gives, and for + - * on two Python ints it is the exact int. Model: '
              '`eval` of the ROUTED formula with the cells, ranges and custom functions in the environment, compared as elsewhere '
              '(4 ulp / 1e-9). Non-trivial: no error entry and at least one operand off the variable route or a layout.')
 TRUSTED_TEXT = ('route layer: the variable route (the call with every operand bound by set_variable, commas, one line) is the '
                 'reference the other routes are compared with; which value is the DEFINED one is judged on that route by the '
-                'plugin\'s own cases; IF(TRUE,x,0) and CHOOSE(1,x) are taken to hand x on unchanged (C12, C18)')
+                'plugin\'s own cases; IF(TRUE,x,0) and CHOOSE(1,x) hand x on unchanged (in the model: C12.if_spec, C18.choose_spec; on the real code that is what the oracle of these two routes checks); the model-side statement of route independence is proved: C09.call_sees_argument_values, C09.host_routes_yield, C08.operator_sees_operand_outcomes, C08.negation_sees_operand_outcome (Lemmas/Routes.lean)')
 ASSUMPTION_TEXT = ('the statement fixes what a call or operation evaluates to as a function of the operand VALUES: the same values '
                    'arriving as literals, from the cell or range listener, as results of custom functions, of nested evaluations or of '
                    'IF/CHOOSE, written with any of the three separators, with white space between the tokens, on a debug parser or for '
